@@ -79,6 +79,9 @@ impl Group for SchedGroup {
             (1, vec!["nobuf;open;o200", "open;o30"], Some(("budget 1", 2))),
             (0, vec!["nobuf;open;o30", "d1.5;open;o9"], Some(("alert", 5))),
             (1, vec!["nobuf;open;o200", "close", "open;o9"], Some(("budget 2", 0))),
+            // a transport that takes a few bytes per write call, before and after the padded start-up phase
+            (2, vec!["nobuf;open;o30", "open;o5;w8.200.40"], Some(("shortw 3", 0))),
+            (1, vec!["nobuf;open;o200;o30;o30", "open;o30;o5"], Some(("shortw 7", 0))),
         ];
         // the peer's answer (SYNACK, data) arrives at every point of an open in progress (one task, then two)
         for (tasks, npicks) in [(vec!["nobuf;open;o5"], 14usize), (vec!["nobuf;open;o5", "open;o3"], 22)] {
@@ -125,6 +128,8 @@ impl Group for SchedGroup {
         let scheme = SCHEMES[rng.below(SCHEMES.len() as u64) as usize];
         let role = if rng.chance(1, 6) { "server" } else { "client" };
         let mut lines = vec![reset_line("sched", role, scheme.as_bytes(), rng.next() % 1000, "")];
+        let shortw = rng.chance(1, 3);
+        if shortw { lines.push(format!("sched shortw {}", rng.pick(&[1u32, 3, 7, 17, 64]))); }
         let nt = rng.range(2, 4) as usize;
         let with_fault = rng.chance(1, 2);
         for t in 0..nt { lines.push(format!("sched task {}", gen_prog(rng, t, with_fault))); }
@@ -142,7 +147,8 @@ impl Group for SchedGroup {
                 lines.push(format!("sched feed {}", hex(&b)));
             }
             if fault_at == Some(s) {
-                lines.push(match rng.below(5) { 0 => "sched eof".into(), 1 => "sched rderr".into(), 2 => "sched alert".into(), _ => format!("sched budget {}", rng.below(4)) });
+                // (the write budget counts write calls: it is not combined with short writes)
+                lines.push(match rng.below(if shortw { 3 } else { 5 }) { 0 => "sched eof".into(), 1 => "sched rderr".into(), 2 => "sched alert".into(), _ => format!("sched budget {}", rng.below(4)) });
             }
             lines.push(format!("sched pick {}", rng.below(6)));
         }
@@ -275,6 +281,13 @@ impl Group for SchedGroup {
                         wake(&n.feed);
                         settle().await;
                         out.obs.push(format!("{}{}", status(&ctl), n.delta().await));
+                    }
+                    ["shortw", k] => {
+                        // back-pressure: the transport accepts at most k bytes per write call (the model's transport
+                        // takes whole buffers; `write_all` makes the two indistinguishable on the wire)
+                        n.wire.lock().unwrap().max_write = k.parse::<usize>().ok().filter(|k| *k > 0);
+                        n.coalesce = *k != "0";
+                        out.obs.push("ok".into());
                     }
                     ["budget", k] => {
                         n.wire.lock().unwrap().budget = if *k == "none" { None } else { k.parse().ok() };
